@@ -741,13 +741,20 @@ def _download_from_resources(
     # Download the requested objects.
     if parallel_download and len(cache_misses) > 1:
         with ThreadPool(processes=MAXIMUM_NUMBER_OF_WORKERS) as pool:
-            output = list(
-                tqdm(
-                    pool.imap(_worker, cache_misses, chunksize=5),
-                    desc=desc,
-                    total=len(cache_misses),
+            try:
+                output = list(
+                    tqdm(
+                        pool.imap(_worker, cache_misses, chunksize=5),
+                        desc=desc,
+                        total=len(cache_misses),
+                    )
                 )
-            )
+            finally:
+                # Wait for downloads that are still in flight, so that no thread
+                # writes into the cache directory after this call has returned
+                # (or raised).
+                pool.close()
+                pool.join()
     else:
         if len(cache_misses) == 1:
             disable_progress_bar = True
